@@ -257,11 +257,18 @@ AllowPanics(s, hint, allow) == ~(s.cls = "S1" /\ "S1" \in allow) /\ hint = "h7" 
 AllowContains(s, hint, allow) == \/ s.cls \in {"S1"} /\ s.cls \in allow
                                  \/ hint # "m" /\ "X" \in allow /\ s.cls = "X" /\ s.path = hint
 
-\* estimate_feerate_per_kw: (((fee * 1000) + 999) / weight) as u32, u64 arithmetic without overflow checks
-CodeRate(fee, weight) == BMod32(BDivSmall(BMod64(BAdd(BMod64(BMulSmall(fee, 1000)), B(999))), weight))
+\* estimate_feerate_per_kw.  Behaviour switch K.saturate (what the code does at HEAD is recorded in
+\* spec/MutualClose.switches.json):
+\*   FALSE  (((fee * 1000) + 999) / weight) as u32 : u64 arithmetic without overflow checks, truncating cast
+\*   TRUE   the same quotient computed without overflow and saturated at 2^32 - 1
+U32Max == <<7295, 9496, 42>>
+CodeRate(fee, weight, K) ==
+  IF K.saturate
+  THEN LET q == BDivSmall(BAdd(BMulSmall(fee, 1000), <<999>>), weight) IN IF BLt(U32Max, q) THEN U32Max ELSE q
+  ELSE BMod32(BDivSmall(BMod64(BAdd(BMod64(BMulSmall(fee, 1000)), <<999>>)), weight))
 
 \* simple_validator.rs validate_mutual_close_tx
-ImplValidate(w, a) ==
+ImplValidate(w, a, K) ==
   LET sum == Sum(a) IN
   IF ~w.hc.p \/ ~w.cc.p THEN Err("no_commitment")
   ELSE IF ~BZero(a.vh) /\ a.sh = NoScr THEN Err("missing_script")
@@ -270,7 +277,7 @@ ImplValidate(w, a) ==
   ELSE IF w.hc.n > 0 \/ w.cc.n > 0 THEN Err("htlcs")
   ELSE IF BLt(U64Max, sum) THEN Err("overflow")
   ELSE IF BLt(w.chv, sum) THEN Err("fee_underflow")
-  ELSE LET rate == CodeRate(BSub(w.chv, sum), Weight(PresentScripts(a), 72)) IN
+  ELSE LET rate == CodeRate(BSub(w.chv, sum), Weight(PresentScripts(a), 72), K) IN
   IF BLt(rate, w.minr) THEN Err("fee_low")
   ELSE IF BLt(w.maxr, rate) THEN Err("fee_high")
   ELSE IF (IF w.out THEN Outside(a.vc, w.cc.c, w.eps) \/ Outside(a.vc, w.hc.c, w.eps)
@@ -288,7 +295,7 @@ MinWithin(x, y, eps) == IF BLeq(BAbsDiff(x, y), eps) THEN [some |-> TRUE, v |-> 
 OptGt(p, q) == IF ~p.some THEN FALSE ELSE IF ~q.some THEN TRUE ELSE BLt(q.v, p.v)
 
 \* channel.rs sign_mutual_close_tx + simple_validator.rs decode_and_validate_mutual_close_tx
-ImplDecode(w, req) ==
+ImplDecode(w, req, K) ==
   LET o == req.outs IN
   IF req.npaths # Len(o) THEN Err("opath_len")
   ELSE IF Len(o) > 2 THEN Err("outputs")
@@ -303,12 +310,12 @@ ImplDecode(w, req) ==
                 ELSE LET hf == Asg(o[1].v, o[2].v, o[1].s, o[2].s, o[1].hint)
                          cf == Asg(o[2].v, o[1].v, o[2].s, o[1].s, o[2].hint) IN
                      IF hl THEN <<cf, hf>> ELSE <<hf, cf>>
-        likely == ImplValidate(w, pair[1]) IN
-    IF likely.ok \/ ImplValidate(w, pair[2]).ok
+        likely == ImplValidate(w, pair[1], K) IN
+    IF likely.ok \/ ImplValidate(w, pair[2], K).ok
     THEN (IF req.canon THEN Ok ELSE Err("recomposed"))
     ELSE likely
 
-ImplStep(w, req) == IF req.entry = "p2" THEN ImplValidate(w, req.a) ELSE ImplDecode(w, req)
+ImplStep(w, req, K) == IF req.entry = "p2" THEN ImplValidate(w, req.a, K) ELSE ImplDecode(w, req, K)
 
 ---------------------------------------------------------------------------
 (***************************************************************************)
